@@ -9,6 +9,7 @@ soundness, completeness and symmetry theorems are then stated about the GENERATE
 -/
 import ShapeVerif.Props.C14
 import ShapeVerif.Gen.Arith
+import ShapeVerif.Props.C18b
 
 namespace ShapeVerif.C14
 open ShapeVerif
@@ -49,6 +50,40 @@ theorem source_lines_swap (a0 a1 b0 b1 : Pt) :
 theorem source_lines_parallel (a0 a1 b0 b1 : Pt) (hD : Pt.cross (a1 - a0) (b1 - b0) = 0) :
     Gen.linesInter a0 a1 b0 b1 = none := by
   rw [source_lines_is_model]; exact linesInter_parallel a0 a1 b0 b1 hD
+
+/-! ### the box rejection of `PlanarCurve.__and__` never loses a crossing — every degree -/
+
+/-- a point of the exact box of `a` is not in the exact box of `b` when the boxes are disjoint -/
+theorem box_disjoint_excludes (a b : Box) (h : a.disjoint b = true) (p : Pt) (hp : a.contains p = true) : b.contains p = false := by
+  unfold Box.disjoint at h
+  unfold Box.contains at hp
+  simp only [Bool.and_eq_true, decide_eq_true_eq] at hp
+  obtain ⟨⟨⟨h1, h2⟩, h3⟩, h4⟩ := hp
+  simp only [Bool.or_eq_true, decide_eq_true_eq] at h
+  by_contra hcon
+  have hb : b.contains p = true := by simpa using hcon
+  unfold Box.contains at hb
+  simp only [Bool.and_eq_true, decide_eq_true_eq] at hb
+  obtain ⟨⟨⟨g1, g2⟩, g3⟩, g4⟩ := hb
+  rcases h with h | h
+  · by_cases c1 : a.lo.x < b.lo.x <;> by_cases c2 : a.hi.x < b.hi.x <;> simp only [c1, c2, if_true, if_false] at h <;> linarith
+  · by_cases c1 : a.lo.y < b.lo.y <;> by_cases c2 : a.hi.y < b.hi.y <;> simp only [c1, c2, if_true, if_false] at h <;> linarith
+
+/-- `if self.box() & other.box() is None: return None` is SOUND for pieces of every degree: when the boxes of the control points do not meet
+(the test AS WRITTEN IN THE SOURCE, `Gen.boxDisjoint`), the two pieces have no common point at any pair of parameters in [0,1] -/
+theorem source_box_rejection_sound (s t : Seg) (hs : s ≠ []) (ht : t ≠ [])
+    (h : Gen.boxDisjoint (Seg.box s).lo (Seg.box s).hi (Seg.box t).lo (Seg.box t).hi = true)
+    (u v : Rat) (hu : 0 ≤ u ∧ u ≤ 1) (hv : 0 ≤ v ∧ v ≤ 1) : evalSeg s u ≠ evalSeg t v := by
+  have hd : (Seg.box s).disjoint (Seg.box t) = true := by
+    have e : Gen.boxDisjoint (Seg.box s).lo (Seg.box s).hi (Seg.box t).lo (Seg.box t).hi = (Seg.box s).disjoint (Seg.box t) := by
+      simp only [Gen.boxDisjoint, Box.disjoint]; grind
+    rw [← e]; exact h
+  intro he
+  have h1 := C18.box_contains_curve_all s hs u hu
+  have h2 := C18.box_contains_curve_all t ht v hv
+  rw [he] at h1
+  rw [box_disjoint_excludes _ _ hd _ h1] at h2
+  exact Bool.noConfusion h2
 
 /-! non-vacuity: the diagonals of the unit square meet at (1/2, 1/2); touching at an end point is reported -/
 example : Gen.linesInter ⟨0, 0⟩ ⟨1, 1⟩ ⟨0, 1⟩ ⟨1, 0⟩ = some (1/2, 1/2) := by decide +kernel
